@@ -186,6 +186,11 @@ def _task(item):
         return out
     if item.get("interp"):
       out["interp"] = interp_run(impl["out_bytes"])
+      if out["interp"] != "ok" and interp_run(impl["in_bytes"]) != "ok":
+        # the synthesised FLOAT model itself does not run (e.g. a shape combination the synthesiser got wrong): the interpreter
+        # clause says nothing about the quantizer here; counted, not judged
+        out["interp"] = None
+        out["float_model_does_not_run"] = True
   elif item.get("dump") is not None:
     out["diffs"] = pipeline.compare(item["dump"], impl)
   return out
